@@ -67,9 +67,23 @@ def load_registry():
         if not os.path.exists(p):
             continue
         ann = {}
+        macro_ann = {}   # macro name -> annotations written inside its macro_rules! definition
+        cur_macro = None
         with open(p) as f:
             for line in f:
                 s = line.strip()
+                mm = re.match(r"^macro_rules!\s+(\w+)", s)
+                if mm:
+                    cur_macro = mm.group(1)
+                if cur_macro and re.search(r"\bfn \$\w+\(\) unwind\(", s):
+                    # annotations of a harness template: every instance `<macro>!(name, ..)` inherits them
+                    if ann:
+                        macro_ann[cur_macro] = ann
+                        ann = {}
+                    continue
+                mi = re.match(r"^(\w+)!\((\w+)\s*,", s)
+                if mi and not ann and mi.group(1) in macro_ann:
+                    ann = dict(macro_ann[mi.group(1)])
                 if s.startswith("//@"):
                     body = s[3:].strip()
                     # several "key: value" pairs may share a line when separated by two spaces
